@@ -49,6 +49,54 @@ theorem C11_dict_readback_undirected (F : Nat → LId → Option VId → Bool) (
     (fun l a b he hl hab => linkOut_und w' F x dir unk c hc hd l a b he hl hab), ?_⟩
   exact count_gSym x y (dictPairs adj)
 
+/-- the same for `load_adj_matrix`: with `matPairs verts matrix` = the list of (row vertex,
+    column vertex) for every truthy cell in row-major order, a vertex `x` without earlier links
+    reads back `y` under DIR_SENS_ANY as often as cell (x, y) or (y, x) is set … -/
+theorem C11_matrix_readback_any (F : Nat → LId → Option VId → Bool) (w w' : World) (c : LCls)
+    (matrix : List (List Bool)) (verts : List VId) (u : VId) (h : Inv w) (hc : c.kind ≠ .nary)
+    (hv : ∀ v ∈ verts, v < w.nV) (hlen : verts.length = matrix.length)
+    (hsq : ∀ row ∈ matrix, row.length = matrix.length)
+    (hr : C.loadAdjMatrix M.prims w c matrix verts = .ok (w', u)) (x y : VId) (hx : x < w.nV)
+    (hnew : w.links x = []) (unk : Nat) :
+    ∃ r, M.neighborsPure w' F x 1 unk none = .ok r ∧
+      r.count (some y) = mult (matPairs verts matrix) x y +
+        (if x = y then 0 else mult (matPairs verts matrix) y x) := by
+  refine ⟨_, matrix_readback F w w' c matrix verts u h hc hv hlen hsq hr x hx hnew 1 unk (gSym x)
+    (fun l a b he hl hab => linkOut_any w' F x unk c hc l a b he hl hab), ?_⟩
+  exact count_gSym x y (matPairs verts matrix)
+
+/-- … for a DIRECTED link type FORWARD gives row → column, BACKWARD column → row -/
+theorem C11_matrix_readback_directed (F : Nat → LId → Option VId → Bool) (w w' : World) (c : LCls)
+    (matrix : List (List Bool)) (verts : List VId) (u : VId) (h : Inv w) (hc : c.kind = .directed)
+    (hv : ∀ v ∈ verts, v < w.nV) (hlen : verts.length = matrix.length)
+    (hsq : ∀ row ∈ matrix, row.length = matrix.length)
+    (hr : C.loadAdjMatrix M.prims w c matrix verts = .ok (w', u)) (x y : VId) (hx : x < w.nV)
+    (hnew : w.links x = []) (unk : Nat) :
+    (∃ r, M.neighborsPure w' F x 0 unk none = .ok r ∧ r.count (some y) = mult (matPairs verts matrix) x y) ∧
+    (∃ r, M.neighborsPure w' F x 2 unk none = .ok r ∧ r.count (some y) = mult (matPairs verts matrix) y x) := by
+  have hc' : c.kind ≠ .nary := by rw [hc]; simp
+  refine ⟨⟨_, matrix_readback F w w' c matrix verts u h hc' hv hlen hsq hr x hx hnew 0 unk (gFwd x)
+    (fun l a b he hl hab => linkOut_fwd w' F x unk c hc l a b he hl hab), ?_⟩,
+    ⟨_, matrix_readback F w w' c matrix verts u h hc' hv hlen hsq hr x hx hnew 2 unk (gBwd x)
+    (fun l a b he hl hab => linkOut_bwd w' F x unk c hc l a b he hl hab), ?_⟩⟩
+  · exact count_gFwd x y (matPairs verts matrix)
+  · exact count_gBwd x y (matPairs verts matrix)
+
+/-- … and for an UNDIRECTED link type every direction gives the symmetric closure -/
+theorem C11_matrix_readback_undirected (F : Nat → LId → Option VId → Bool) (w w' : World) (c : LCls)
+    (matrix : List (List Bool)) (verts : List VId) (u : VId) (h : Inv w) (hc : c.kind = .undirected)
+    (hv : ∀ v ∈ verts, v < w.nV) (hlen : verts.length = matrix.length)
+    (hsq : ∀ row ∈ matrix, row.length = matrix.length)
+    (hr : C.loadAdjMatrix M.prims w c matrix verts = .ok (w', u)) (x y : VId) (hx : x < w.nV)
+    (hnew : w.links x = []) (dir unk : Nat) (hd : dir ≤ 2) :
+    ∃ r, M.neighborsPure w' F x dir unk none = .ok r ∧
+      r.count (some y) = mult (matPairs verts matrix) x y +
+        (if x = y then 0 else mult (matPairs verts matrix) y x) := by
+  have hc' : c.kind ≠ .nary := by rw [hc]; simp
+  refine ⟨_, matrix_readback F w w' c matrix verts u h hc' hv hlen hsq hr x hx hnew dir unk (gSym x)
+    (fun l a b he hl hab => linkOut_und w' F x dir unk c hc hd l a b he hl hab), ?_⟩
+  exact count_gSym x y (matPairs verts matrix)
+
 /-- `explicit.unlink` iterates a Python `set`: the resulting world does not depend on the order
     in which the joining links are processed -/
 theorem C03_unlink_order_independent (w : World) (a b : VId) (J J' : List LId)
